@@ -678,6 +678,8 @@ def run(ck):
     ck.run_rule("G12", "definition chains of any length: lazily evaluated values do not force their operands from inside their own thunks", 6, escape.rule_G12)
     from . import c11
     ck.run_rule("C03.try", "try mode nests: not_ready() gives up exactly while a try is open", 1, rule_try_depth)
+    from ..rules import escape as _esc
+    ck.run_rule("G16", "'not yet' (NotReadyError) reaches the closing evaluation: no blanket handler turns it into a value", 8, _esc.rule_G16)
     ck.run_rule("C03.R1u", "a name nobody defines: one error, then an integer value and no definition site (assembly goes on)", 1, c11.rule_undefined_value)
     ck.run_rule("C11.R5", "'.extern all' exports what is defined before AND after it (a definition may stand on either side)", 4, c11.rule_R5)
     from ..rules import treeimm
